@@ -96,6 +96,12 @@ static int poison_byte() {
     if (v < 0) { const char * p = getenv("VP_POISON"); v = p ? static_cast<int>(strtol(p, nullptr, 0)) & 255 : 0xA5; }
     return v;
 }
+#if defined(__has_feature)
+#if __has_feature(thread_sanitizer)
+#define VP_TSAN_BUILD 1       /* ThreadSanitizer brings its own operator new / delete */
+#endif
+#endif
+#ifndef VP_TSAN_BUILD
 void * operator new(size_t n) {
     void * p = malloc(n ? n : 1);
     if (!p) throw std::bad_alloc();
@@ -109,6 +115,7 @@ void operator delete(void * p) noexcept { vp_free(p); }
 void operator delete[](void * p) noexcept { vp_free(p); }
 void operator delete(void * p, size_t) noexcept { vp_free(p); }
 void operator delete[](void * p, size_t) noexcept { vp_free(p); }
+#endif
 
 // std::condition_variable out-of-line members, interposed: real pthread semantics plus probe mode
 // (a wait that would block throws VpBlocked) and notify counting.
@@ -147,10 +154,13 @@ static void pause_check(char kind, int cnt) {
     }
     if (g_pause_tid == t_ord && g_pause_kind == kind && g_pause_cnt == cnt) usleep(static_cast<useconds_t>(g_pause_ms) * 1000);
 }
+// a sanitizer runtime that intercepts these functions itself (ThreadSanitizer) must still see the calls
+extern "C" int __interceptor_pthread_mutex_unlock(pthread_mutex_t *) __attribute__((weak));
+extern "C" int __interceptor_pthread_mutex_lock(pthread_mutex_t *) __attribute__((weak));
 extern "C" int pthread_mutex_unlock(pthread_mutex_t * m) {
     typedef int (*fn_t)(pthread_mutex_t *);
     static fn_t real = nullptr;
-    if (!real) real = reinterpret_cast<fn_t>(dlsym(RTLD_NEXT, "pthread_mutex_unlock"));
+    if (!real) real = __interceptor_pthread_mutex_unlock ? __interceptor_pthread_mutex_unlock : reinterpret_cast<fn_t>(dlsym(RTLD_NEXT, "pthread_mutex_unlock"));
     int r = real(m);
     if (m == &g_nmx) return r;
     if (!g_chaos_init) { const char * p = getenv("VP_CHAOS"); g_chaos = p ? static_cast<unsigned>(strtoul(p, nullptr, 0)) : 0; g_chaos_init = 1; }
@@ -170,7 +180,7 @@ extern "C" int pthread_mutex_unlock(pthread_mutex_t * m) {
 extern "C" int pthread_mutex_lock(pthread_mutex_t * m) {
     typedef int (*fn_t)(pthread_mutex_t *);
     static fn_t real = nullptr;
-    if (!real) real = reinterpret_cast<fn_t>(dlsym(RTLD_NEXT, "pthread_mutex_lock"));
+    if (!real) real = __interceptor_pthread_mutex_lock ? __interceptor_pthread_mutex_lock : reinterpret_cast<fn_t>(dlsym(RTLD_NEXT, "pthread_mutex_lock"));
     int r = real(m);
     if (m != &g_nmx) pause_check('L', ++t_cntL);
     return r;
@@ -194,8 +204,15 @@ extern "C" int pthread_create(pthread_t * t, const pthread_attr_t * a, void * (*
 }
 
 extern "C" void VP_ENTRY();
+static void * g_shift_blocks[4096];
 int main() {
     setvbuf(stdout, nullptr, _IOLBF, 0);
+    // $VP_HEAP_SHIFT=<k>: k rounds of allocations of every small size class are made (and kept) first, so that the
+    // objects of the harness live at other heap addresses than in a run without it
+    if (const char * p = getenv("VP_HEAP_SHIFT")) {
+        int k = atoi(p), n = 0;
+        for (int r = 0; r < k; r++) for (size_t s = 8; s <= 2048 && n < 4096; s *= 2) g_shift_blocks[n++] = malloc(s + static_cast<size_t>(r));
+    }
     VP_ENTRY();
     printf("DONE\n");
     return 0;
